@@ -234,39 +234,69 @@ def _riscv(rng):
     U = IntRegisterType.unallocated()
     nargs = rng.randint(0, 2)
     argregs = [Registers.A0, Registers.A1][:nargs]
+    # 1. plan: op k defines value nargs + k; operands are indexes of earlier values
+    plan: list[tuple[str, list[int], int]] = []
+    is_zero: dict[int, bool] = {}
+    nv = nargs
+    for _ in range(rng.randint(2, 9)):
+        k = rng.choice(["li", "li0", "add", "add", "sub", "mul", "mv", "add"])
+        if k == "li" or (nv == 0 and k != "li0"):
+            plan.append(("li", [], rng.choice([1, 5, 7, -3])))
+        elif k == "li0":
+            plan.append(("li0", [], 0))
+            is_zero[nv] = True
+        elif k == "mv":
+            src = rng.randrange(nv)
+            plan.append(("mv", [src], 0))
+            if is_zero.get(src):           # a move of the constant zero is the constant zero
+                is_zero[nv] = True
+        else:
+            plan.append((k, [rng.randrange(nv), rng.randrange(nv)], 0))
+        nv += 1
+    ret_src = rng.randrange(nv)
+    plan.append(("mv", [ret_src], 0))      # result handed back in a0
+    pool = rng.sample([Registers.T0, Registers.T1, Registers.T2, Registers.T3, Registers.T4, Registers.T5], rng.choice([1, 2, 3, 3, 4, 6]))
+    # 2. pre-assignments.  A register may be pre-assigned to several values whose live ranges [definition, last use] do not
+    #    overlap (the last use of one may coincide with the definition of the next); registers of the allocatable pool may be
+    #    pre-assigned too - allocate_func excludes every pre-assigned register from allocation.
+    last = {v: (v - nargs if v >= nargs else -1) for v in range(nv + 1)}
+    for k, (_kind, srcs, _imm) in enumerate(plan):
+        for v in srcs:
+            last[v] = max(last[v], k)
+    rd_of: dict[int, Any] = {nv: Registers.A0}
+    taken: dict[str, list[tuple[int, int]]] = {"a0": [(len(plan) - 1, len(plan))]}
+    for a in range(nargs):
+        taken.setdefault(argregs[a].register_name.data, []).append((-1, last[a]))
+    cands = [Registers.S1, Registers.S2, Registers.T6] + list(pool) + [Registers.A0, Registers.A1]
+    for v in range(nargs, nv):
+        if is_zero.get(v) or rng.random() >= 0.2:
+            continue
+        r = rng.choice(cands)
+        d, l = v - nargs, last[v]
+        if all(l <= d2 or l2 <= d for (d2, l2) in taken.get(r.register_name.data, [])):
+            taken.setdefault(r.register_name.data, []).append((d, l))
+            rd_of[v] = r
+    # 3. build
     block = Block(arg_types=argregs)
     vals: list[Any] = list(block.args)
     zero_pos: set[int] = set()
-    zero_vals: set[int] = set()
     ops = []
-    pre_pool = [Registers.S1, Registers.S2, Registers.T6]
-    for _ in range(rng.randint(2, 9)):
-        k = rng.choice(["li", "li0", "add", "add", "sub", "mul", "mv", "add"])
-        # each pre-assigned register is used for ONE value per block: conflicting pre-assignments are invalid input
-        rd = pre_pool.pop(rng.randrange(len(pre_pool))) if pre_pool and rng.random() < 0.12 else U
-        if k == "li" or (not vals and k != "li0"):
-            op = rv32.LiOp(rng.choice([1, 5, 7, -3]), rd=rd)
-        elif k == "li0":
-            op = rv32.LiOp(0, rd=U)
-            zero_pos.add(len(ops))
-        elif k == "mv":
-            src = rng.choice(vals)
-            op = riscv.MVOp(src, rd=rd)
-            if id(src) in zero_vals:          # a move of the constant zero is the constant zero
-                zero_pos.add(len(ops))
+    for k, (kind, srcs, imm) in enumerate(plan):
+        rd = rd_of.get(nargs + k, U)
+        if kind in ("li", "li0"):
+            op = rv32.LiOp(imm, rd=rd)
+        elif kind == "mv":
+            op = riscv.MVOp(vals[srcs[0]], rd=rd)
         else:
-            cls = {"add": riscv.AddOp, "sub": riscv.SubOp, "mul": riscv.MulOp}[k]
-            op = cls(rng.choice(vals), rng.choice(vals), rd=rd)
-        if len(ops) in zero_pos:
-            zero_vals.add(id(op.results[0]))
+            cls = {"add": riscv.AddOp, "sub": riscv.SubOp, "mul": riscv.MulOp}[kind]
+            op = cls(vals[srcs[0]], vals[srcs[1]], rd=rd)
+        if is_zero.get(nargs + k):
+            zero_pos.add(k)
         ops.append(op)
         vals.append(op.results[0])
-    mv = riscv.MVOp(rng.choice(vals), rd=Registers.A0)
-    ops.append(mv)
-    ops.append(riscv_func.ReturnOp(mv.rd))
+    ops.append(riscv_func.ReturnOp(ops[-1].results[0]))
     block.add_ops(ops)
     func = riscv_func.FuncOp("f", Region(block), (argregs, [Registers.A0]))
-    pool = rng.sample([Registers.T0, Registers.T1, Registers.T2, Registers.T3, Registers.T4, Registers.T5], rng.choice([1, 2, 3, 3, 4, 6]))
     stack = RiscvRegisterStack.get(allocatable_registers=pool, allow_infinite=rng.random() < 0.2)
     before = snapshot(block)
     try:
@@ -274,3 +304,5 @@ def _riscv(rng):
     except (DiagnosticException, NotImplementedError):
         return {"failed": True}
     return finish_case(block, before, [r.register_name.data for r in pool], set(), "j_", zero_pos)
+
+
